@@ -131,6 +131,18 @@ def run(tier):
         for text in (a_ + b_ + tail, f"Gal(b1-4){a_}{b_}{tail}", f"{a_}{b_}{tail}(a1-4)Gal", f"Man(a1-3)[Gal(b1-4){a_}{b_}{tail}(b1-6)]Man"):
             if orc.drv.call("accepts", text) == "1":
                 cases.append((text, None, {"unknown-residue"}))
+    # linkages that cannot be formed as written: to the carbon that bears the ring oxygen, to a carbon without hydroxyl or
+    # amine (deoxy position, beyond the chain), or two residues on one position
+    unform = [("Glc", 5), ("Man", 5), ("Gal", 5), ("GlcNAc", 5), ("Galf", 4), ("Araf", 4), ("Neu5Ac", 6), ("Kdo", 6), ("Fruf", 5), ("Xyl", 5),
+              ("Fuc", 6), ("Rha", 6), ("Xyl", 6), ("Glc", 7), ("Qui", 6), ("Neu5Ac", 3), ("Kdo", 3), ("Ara", 5)]
+    for par_, pos_ in (unform if tier == "thorough" else r.sample(unform, 8)):
+        ch_ = r.choice(["Man", "Gal", "Glc", "Fuc"])
+        an_ = r.choice("ab")
+        for text in (f"{ch_}({an_}1-{pos_}){par_}", f"Neu5Ac(a2-3){ch_}({an_}1-{pos_}){par_}(b1-4)Glc", f"Gal(b1-3)[{ch_}({an_}1-{pos_})]{par_}"):
+            if orc.drv.call("accepts", text) == "1":
+                cases.append((text, None, {"unformable-linkage"}))
+    for text in ("Man(a1-4)[Gal(b1-4)]Glc", "Man(a1-3)[Man(a1-3)]Man(b1-4)GlcNAc", "Fuc(a1-2)[Gal(b1-2)]Gal(b1-4)Glc"):
+        cases.append((text, None, {"unformable-linkage"}))
     reqs, meta = [], []
     for ci, (text, stripped, obs) in enumerate(cases):
         for full in (True, False):
@@ -203,7 +215,7 @@ def run(tier):
                     {"no_failing_input": True, "what_no_longer_checks": broken, "theorems": names_thm})
     report.assumptions = ["unsupported modification tokens = FG literals of Glycan.g4 that functional_groups does not define (recomputed per run), and positions beyond the carbon chain",
                           "tree_only=True is exempt by the property"]
-    extra = {"ring_form_cases": ring_cases, "rule": "random glycans in which a random subset of residues ('Unk', a ring-form letter for which the library has no row of that sugar: Neuf, Olif, ..., or two sugar codes in one residue: GlcMan, GalUnk), modifications (grammar tokens without chemistry, positions beyond the chain), linkages ('?') is made unrealisable, optionally with a detached {fragment}; both values of full; non-trivial = at least one obstacle",
+    extra = {"ring_form_cases": ring_cases, "rule": "random glycans in which a random subset of residues ('Unk', a ring-form letter for which the library has no row of that sugar: Neuf, Olif, ..., or two sugar codes in one residue: GlcMan, GalUnk), modifications (grammar tokens without chemistry, positions beyond the chain), linkages ('?', or a linkage to a carbon that has no free hydroxyl or amine, or to a position already used) is made unrealisable, optionally with a detached {fragment}; both values of full; non-trivial = at least one obstacle",
              "unsupported_tokens": unsup, "conversions": len(reqs),
              "print_assumptions": res.assumptions.get(f"Props/{PROP}.v", "").strip().splitlines()[-4:]}
     return report.finish("proof", ob, dis, names_thm, trusted=C.TRUSTED, extra=extra)
